@@ -171,13 +171,21 @@ func (g *vStoreWorld) step(a map[string]interface{}) map[string]interface{} {
 		g.cache.mu.Lock()
 		g.cache.failAt = k
 		g.cache.mu.Unlock()
+		pk := vInt(a, "pk") // fault at the pk-th operation on the PRIMARY (statements and row fetches)
+		g.prim.mu.Lock()
+		g.prim.failAt = pk
+		g.prim.mu.Unlock()
 		err := copyDBIntoSQLite(st.db, st.cacheDB, "sqlite")
 		g.cache.mu.Lock()
 		ops := g.cache.count
 		g.cache.failAt = 0
 		g.cache.mu.Unlock()
+		g.prim.mu.Lock()
+		pops := g.prim.count
+		g.prim.failAt = 0
+		g.prim.mu.Unlock()
 		out["ok"] = err == nil
-		out["note"] = fmt.Sprintf("cacheops=%d", ops)
+		out["note"] = fmt.Sprintf("cacheops=%d primops=%d", ops, pops)
 	case "cleanup":
 		g.cache.reset()
 		g.prim.reset()
